@@ -32,6 +32,8 @@ import (
 	"encoding/binary"
 	"fmt"
 	"io"
+	"os"
+	"runtime"
 	"strings"
 	"time"
 
@@ -41,15 +43,23 @@ import (
 )
 
 func c04Open(key, pkt []byte) string {
-	e, err := messages.DeserializeEncrypted(append([]byte{}, pkt...), key)
+	buf := append([]byte{}, pkt...) // the caller's buffer: overwritten as soon as the call has returned (c04hold.go)
+	e, err := messages.DeserializeEncrypted(buf, key)
 	if err != nil {
+		c04HeldScribble(buf, nil, "")
 		return envOpenErr(err)
 	}
 	if e == nil {
 		// the result contract: no error means "here is a message"
 		return c04NoMsg + "(DeserializeEncrypted)"
 	}
-	return envShowMsg(envOfEncrypted(e))
+	out := envShowMsg(envOfEncrypted(e))
+	// the message is the caller's from now on: held, with a private copy, and looked at again after everything
+	// that happens later in the run
+	h := c04HeldHold(e, c04HeldAt("DeserializeEncrypted"))
+	h.shown = out
+	c04HeldScribble(buf, h, "DeserializeEncrypted")
+	return out
 }
 
 // distribution of result kinds per operation, reported in the evidence file
@@ -66,9 +76,11 @@ func c04Kind(out string) string {
 }
 
 func c04Exec(op []string) string {
+	c04HeldBegin(op)
 	out := c04Exec1(op)
 	c04Kinds[op[0]+" "+c04Kind(out)]++
-	return out
+	// every message handed out so far in this run is compared with the copy taken when it was handed out
+	return c04HeldEnd(out)
 }
 
 func c04Exec1(op []string) string {
@@ -104,6 +116,10 @@ func c04Exec1(op []string) string {
 		return c04Client(op[1], op[2:])
 	case "c04.big", "c04.cut":
 		return c04Big(op)
+	case "c04.hold":
+		return c04Hold(op)
+	case "c04.heldcheck":
+		return c04HeldCheckOp(op)
 	}
 	return "bad-op"
 }
@@ -146,12 +162,16 @@ func c04Routed(msg messages.Common, err error) (res string, alive bool) {
 		if m == nil {
 			return c04NoMsg + "(ReadMsg:*Encrypted)", true
 		}
-		return "enc " + envShowMsg(envOfEncrypted(m)), true
+		out := "enc " + envShowMsg(envOfEncrypted(m))
+		c04HeldHold(m, c04HeldAt("transport.ReadMsg")).shown = out
+		return out, true
 	case *messages.Unencrypted:
 		if m == nil {
 			return c04NoMsg + "(ReadMsg:*Unencrypted)", true
 		}
-		return fmt.Sprintf("unenc mid=%d body=%s", uint64(m.MsgID), showBytes(m.Msg)), true
+		out := fmt.Sprintf("unenc mid=%d body=%s", uint64(m.MsgID), showBytes(m.Msg))
+		c04HeldHold(m, c04HeldAt("transport.ReadMsg")).shown = out
+		return out, true
 	}
 	return "err:unknown-type", true
 }
@@ -210,19 +230,26 @@ func c04Session(steps []string) string {
 			res, alive = c04Routed(msg, err)
 		}()
 		outs = append(outs, res)
+		c04HeldCheck(fmt.Sprintf("after packet %d of this session had been read (%s)", i/3+1, c04ClipN(res, 48)), false)
 	}
 	return strings.Join(outs, " ; ")
 }
 
 func c04Unenc(data []byte) string {
-	m, err := messages.DeserializeUnencrypted(append([]byte{}, data...))
+	buf := append([]byte{}, data...)
+	m, err := messages.DeserializeUnencrypted(buf)
 	if err != nil {
+		c04HeldScribble(buf, nil, "")
 		return envUnencErr(err)
 	}
 	if m == nil {
 		return c04NoMsg + "(DeserializeUnencrypted)"
 	}
-	return fmt.Sprintf("ok mid=%d body=%s", uint64(m.MsgID), showBytes(m.Msg))
+	out := fmt.Sprintf("ok mid=%d body=%s", uint64(m.MsgID), showBytes(m.Msg))
+	h := c04HeldHold(m, c04HeldAt("DeserializeUnencrypted"))
+	h.shown = out
+	c04HeldScribble(buf, h, "DeserializeUnencrypted")
+	return out
 }
 
 func c04Expect(m envMsg, bodyTok string) string {
@@ -242,12 +269,22 @@ func c04Judge(op []string, out string) string {
 	if strings.Contains(out, "panic:") {
 		return "the receive path panics: " + clip(out)
 	}
+	if why := c04HeldJudge(out); why != "" {
+		return why
+	}
 	if strings.Contains(out, c04NoMsg) {
 		return "no error and no message: a call on the receive path returned err == nil together with a nil message (the caller is told the packet was fine and dereferences it): " + clip(out)
 	}
 	switch op[0] {
 	case "c04.big", "c04.cut":
 		return c04JudgeBig(op, out)
+	case "c04.hold":
+		return c04JudgeHold(op, out)
+	case "c04.heldcheck":
+		if out != "held:intact" && out != "bad-op" {
+			return "unclassified result: " + clip(out)
+		}
+		return ""
 	case "c04.client":
 		return c04JudgeClient(op, out)
 	case "c04.session":
@@ -601,6 +638,12 @@ func c04Gen(g *G) {
 	// (10) the size axis: packets of 2^10 .. 2^24+2^20 bytes, described instead of spelled out (c04big.go)
 	c04GenBig(g)
 
+	c04GenCheckPoint(g, "after-big")
+
+	// (11) sequences whose messages are all held: one packet of every class after a genuine one, other transports
+	// and keys, random walks, large between small (c04hold.go)
+	c04GenHold(g)
+
 	// (9) the same through the real client working under its auth key: a frame with zero key id yields no message
 	c04GenClients(g)
 
@@ -635,6 +678,8 @@ func c04Gen(g *G) {
 	for i := 0; i < g.N(60, 2000); i++ {
 		g.Emit(fmt.Sprintf("c04.udeser %s any", hexD(r.Bytes(r.Intn(64)))), "unenc", "unenc-random")
 	}
+	// the end of the run: everything that was handed out is looked at once more, after forced collections
+	c04GenCheckPoint(g, "end-of-run")
 }
 
 func c04GenSessions(g *G) {
@@ -720,9 +765,25 @@ func c04SpecUnenc(mid uint64, body []byte) []byte {
 
 func init() {
 	register(&Prop{Name: "c04", Stateless: true, Gen: c04Gen, Exec: c04Exec, Judge: c04Judge,
-		Setup: func(g *G) { c04G = g; envListen() },
+		Setup: func(g *G) {
+			c04G = g
+			envListen()
+			c04HeldSetup()
+			for _, a := range os.Args {
+				if a == "-ops" {
+					// a replay / the corpus: one P, so that what a pooled buffer does is the same every time
+					runtime.GOMAXPROCS(1)
+				}
+			}
+		},
 		Teardown: func() {
 			envUnlisten()
+			c04HeldRestore()
+			held := map[string]interface{}{"bytes_held_at_end": c04HeldBytes}
+			for k, v := range c04HeldStats {
+				held[k] = v
+			}
+			c04G.Extra["held_messages"] = held
 			kinds := map[string]interface{}{}
 			for k, v := range c04Kinds {
 				kinds[k] = v
